@@ -29,6 +29,39 @@ def judge_c03(c, op, cfg, raw):
     return None
 
 
+def gen_close_pairs(ctx):
+    """two simple transversal crossings 2^-11 .. 2^-12 apart in each parameter (inside the property's separation >= 2^-16, far
+    above the duplicate threshold 2^-36): the arch (w s, A s (1 - s)) cut just below its apex by a horizontal segment or by the
+    mirrored arch; crossings at s = t = 1/2 -+ delta in closed form, tangent of the crossing angle 2 A delta / w in [2^-5, 2^-2]
+    (arches of moderate size: the 20-round subdivision budget is not exhausted); translated / swapped"""
+    rng = ctx.rng
+    out = []
+    tries = 0
+    while len(out) < (10 if ctx.quick() else 200) and tries < 5000:
+        tries += 1
+        delta = F(1, 2 ** rng.choice([12, 13]))
+        A = F(rng.choice([8, 16, 32, 64]))
+        w = F(1, rng.choice([4, 8, 16]))
+        tan = 2 * A * delta / w
+        if not (F(1, 32) <= tan <= F(1, 4)):
+            continue
+        h = A * (F(1, 4) - delta * delta)
+        arch = [[F(0), w / 2, w], [F(0), A / 2, F(0)]]
+        if rng.random() < 0.5:
+            second = [[F(0), w], [h, h]]
+        else:
+            second = [[F(0), w / 2, w], [2 * h, 2 * h - A / 2, 2 * h]]
+        tx, ty = F(rng.randint(-4, 4), 4), F(rng.randint(-4, 4), 4)
+        mp = lambda rows: [[x + tx for x in rows[0]], [y + ty for y in rows[1]]]
+        c1, c2 = mp(arch), mp(second)
+        exp = [(F(1, 2) - delta, F(1, 2) - delta), (F(1, 2) + delta, F(1, 2) + delta)]
+        if rng.random() < 0.5:
+            c1, c2 = c2, c1
+        if all(F(float(v)) == v for r in c1 + c2 for v in r):
+            out.append({"c1": c1, "c2": c2, "expected": exp, "family": "close-pair", "delta": delta})
+    return out
+
+
 def gen_add(ctx):
     rng = ctx.rng
     out = []
@@ -253,6 +286,8 @@ def run(ctx):
         k = (c["kind"], len(c["expected"]))
         kinds[str(k)] = kinds.get(str(k), 0) + 1
     ctx.corr["sweep:certified_curve_curve_crossings_found_exactly_once"]["distribution(kind, crossings)"] = kinds
+    sweep(ctx, "two_crossings_close_together_both_reported", gen_close_pairs(ctx),
+          [("Curve.intersect", ic.intersect_args("GEOMETRIC"))], judge_c03)
     # disjoint boxes -> empty
     dis = []
     for c in ic.gen_planted(ctx, 40 if ctx.quick() else 800):
